@@ -25,11 +25,11 @@ use vmc::{Chooser, Config, Outcome, Violation};
 /// several slices per container are a legal layout that other writers produce (one crai line per slice
 /// and reference, several lines sharing a container offset), reachable here through hook H4.
 type Layout = (Option<usize>, usize);
-const LAYOUTS: [Layout; 6] = [(None, 1), (Some(1), 1), (Some(2), 1), (Some(3), 1), (Some(2), 2), (Some(1), 3)];
+const LAYOUTS: [Layout; 5] = [(None, 1), (Some(1), 1), (Some(2), 1), (Some(3), 1), (Some(2), 2)];
 const LAYOUTS_THOROUGH: [Layout; 8] =
     [(None, 1), (Some(1), 1), (Some(2), 1), (Some(3), 1), (Some(2), 2), (Some(1), 3), (Some(3), 2), (Some(2), 3)];
 const SEQ_LAYOUTS: [Layout; 5] = [(None, 1), (Some(1), 1), (Some(2), 1), (Some(3), 1), (Some(2), 2)];
-const SHAPE_LAYOUTS: [Layout; 11] = [
+const SHAPE_LAYOUTS: [Layout; 12] = [
     (None, 1),
     (Some(1), 1),
     (Some(2), 1),
@@ -41,6 +41,7 @@ const SHAPE_LAYOUTS: [Layout; 11] = [
     (Some(3), 2),
     (Some(2), 3),
     (Some(4), 3),
+    (Some(1), 3),
 ];
 
 #[derive(Clone, Debug)]
@@ -850,14 +851,15 @@ impl Filtered<'_> {
 fn main() {
     vmc::run("C19", "model_checking", |ctx| {
         ctx.rule(
-            "harness layouts_regions_*: base stream x records-per-slice layout {default,1,2,3} (one slice per container) enumerated completely; \
+            "harness layouts_regions_*: base stream x layout (records per slice {default,1,2,3} with one slice per container, and 2 records x 2 slices \
+             per container; thorough also 1x3, 3x2, 2x3) enumerated completely; \
              per record the fields that decide placement (CIGAR shape, position, reference, mapped/placed-unmapped/unplaced) \
              deviate under the bound; per execution every region of the alphabet (all [a,b] on short references; on longer ones all [a,b] over \
              the breakpoints start, CIGAR end, read-length end of every record, each -1/0/+1, plus 1, L, L+1; whole reference, open bounds, beyond the \
              end) is queried through the sync IndexedReader/Reader AND the async Reader (vrt::block_on, Ready source); harness shapes_regions: the \
              22-record 'shapes' document (clips, insertions, deletions, skips, pads, CIGAR-less placed reads with and without bases, position 1 and \
              last base, mate-only differences, earlier reference at higher coordinates, three references + unplaced tail) x records per slice \
-             {default,1,2,3,4,5,7}; harness reader_sequences: one reader, every sequence of 2-3 steps over 9 step kinds; distinct = distinct \
+             {default,1,2,3,4,5,7} with one slice per container and 2x2, 3x2, 2x3, 4x3, 1x3 (records x slices per container); harness reader_sequences: one reader, every sequence of 2-3 steps over 9 step kinds; distinct = distinct \
              (expected index, per-region answer sizes) logs; transitions = region queries executed (sync + async)",
         );
         ctx.assume("the container walker (gcram::walk: own ITF8/LTF8, crc32fast, md-5, miniz_oxide) reads slice boundaries correctly; it is calibrated on default-writer files in C07");
